@@ -30,11 +30,14 @@ SD(a, b) == IF W = 0 THEN a - b
             ELSE LET d == (a - b) % W IN IF d >= W \div 2 THEN d - W ELSE d
 
 (* ------------------------------ encoder -------------------------------- *)
-NewEncoder(d, p, next) == [d |-> d, p |-> p, next |-> next, cnt |-> 0, maxsz |-> 0, gid |-> 0]
+NewEncoder(d, p, next) == [d |-> d, p |-> p, next |-> next, cnt |-> 0, maxsz |-> 0, gid |-> 0, fresh |-> TRUE]
 
-(* encode(b, rto): size = payload size class; contiguous = (now - tsLatestPacket < rto) *)
-EncodeOp(e, size, contiguous) ==
-  LET n     == e.d + e.p
+(* encode(b, rto): size = payload size class; cont = (now - tsLatestPacket < rto). tsLatestPacket starts at 0, so the  *)
+(* very first packet of an encoder is never "contiguous" (with dataShards = 1 the first group's parity is skipped).   *)
+EncodeOp(e0, size, cont) ==
+  LET n     == e0.d + e0.p
+      contiguous == cont /\ ~e0.fresh
+      e     == [e0 EXCEPT !.fresh = FALSE]
       pw    == Paws(n)
       data  == [seq |-> e.next, flag |-> "data", gid |-> e.gid, idx |-> e.cnt, size |-> size, ed |-> e.d, ep |-> e.p]
       nx1   == (e.next + 1) % pw
@@ -81,7 +84,13 @@ Reconstruct(dec, pkts) ==
                   /\ \A q1, q2 \in pkts : q1.gid = q2.gid
       g     == (CHOOSE q \in pkts : TRUE).gid
       miss  == {kk \in 0..(dec.d - 1) : ~\E q \in pkts : pos(q) = kk}
-  IN SetToSortSeq({[gid |-> g, idx |-> kk, ok |-> coherent] : kk \in miss}, LAMBDA a, b : a.idx < b.idx)
+      \* garbage has no identity: one anonymous not-ok output per missing position
+      \* with one data shard every shard of a codeword (data or parity) is a copy of the data packet, whatever the parity count:
+      \* a decoder running d = 1 rebuilds the right packet from any single shard of a d = 1 sender
+      trivial == dec.d = 1 /\ Cardinality(pkts) = 1 /\ \A q \in pkts : q.ed = 1
+  IN IF trivial /\ ~coherent THEN [i \in 1..Cardinality(miss) |-> [gid |-> g, idx |-> 0, ok |-> TRUE]]
+     ELSE IF coherent THEN SetToSortSeq({[gid |-> g, idx |-> kk, ok |-> TRUE] : kk \in miss}, LAMBDA a, b : a.idx < b.idx)
+     ELSE [i \in 1..Cardinality(miss) |-> [gid |-> -1, idx |-> -1, ok |-> FALSE]]
 
 DecodeOp(dec, pkt) ==
   LET n0   == dec.d + dec.p
@@ -97,7 +106,9 @@ DecodeOp(dec, pkt) ==
                    ps == FindPeriod(ring, FALSE)
                IN IF ds > 0 /\ ps > 0 /\ ds + ps < 256
                     THEN IF ds # dec.d \/ ps # dec.p
-                           THEN [dec |-> [d1 EXCEPT !.d = ds, !.p = ps, !.sets = <<>>, !.tune = FALSE], out |-> <<>>, why |-> "retuned"]
+                           THEN [dec |-> [d1 EXCEPT !.d = ds, !.p = ps, !.sets = <<>>, !.tune = FALSE,
+                                                    !.newest = pkt.seq \div (ds + ps)],   \* horizon re-expressed in the new unit (fix c4d7094)
+                                 out |-> <<>>, why |-> "retuned"]
                            ELSE [dec |-> [d1 EXCEPT !.tune = FALSE], out |-> <<>>, why |-> "tune-cleared"]
                     ELSE [dec |-> [d1 EXCEPT !.tune = TRUE], out |-> <<>>, why |-> "tuning"]
           ELSE
